@@ -1,4 +1,72 @@
-(* further skeleton models (Arbitrary pipeline, serialisation wire forms): see below *)
+(* Further skeleton models: the Arbitrary pipeline (byte-level decoder of the `arbitrary` crate as used here +
+   the repo's own filtering and sorting) and the serialisation wire forms. Definitions only. *)
 From Coq Require Import ZArith List Bool.
 Require Import PP.FloatModel PP.Expr PP.FloatOps PP.Model.PwModel.
 Import ListNotations.
+Local Open Scope Z_scope.
+
+(* ---- arbitrary 1.4.2: Unstructured ---- *)
+(* fill_buffer: n bytes, zero-filled when the input runs out *)
+Definition take (n : nat) (bs : list Z) : list Z * list Z :=
+  let got := firstn n bs in (got ++ repeat 0 (n - length got), skipn n bs).
+Definition get_u8 (bs : list Z) : Z * list Z := match bs with [] => (0, []) | b :: r => (b, r) end.
+Definition le_int (l : list Z) : Z := fold_right (fun b acc => b + 256 * acc) 0 l.
+(* u64::from_le_bytes, then f64::from_bits: we keep the bit pattern *)
+Definition get_f64 (bs : list Z) : Z * list Z := let '(b, r) := take 8 bs in (le_int b, r).
+(* Vec<f64>: while bool { element };  bool = low bit of one byte; an exhausted input reads zeros, i.e. false *)
+Fixpoint get_vec (fuel : nat) (bs : list Z) (acc : list Z) : list Z * list Z :=
+  match fuel with
+  | O => (rev acc, bs)
+  | S f => let '(k, r) := get_u8 bs in
+           if Z.odd k then let '(x, r') := get_f64 r in get_vec f r' (x :: acc)
+           else (rev acc, r)
+  end.
+Definition get_vec_f64 (bs : list Z) := get_vec (S (length bs)) bs [].
+(* PolyK / [f64; N]: N numbers in index order *)
+Fixpoint get_n_f64 (n : nat) (bs : list Z) : list Z * list Z :=
+  match n with
+  | O => ([], bs)
+  | S m => let '(x, r) := get_f64 bs in let '(xs, r') := get_n_f64 m r in (x :: xs, r')
+  end.
+
+(* ---- the repo's pipeline (piecewise.rs, impl Arbitrary for Piecewise<T>) ---- *)
+Inductive arb_result (X : Type) := ArbErr | ArbPanic | ArbOk (x : X).
+Arguments ArbErr {X}. Arguments ArbPanic {X}. Arguments ArbOk {X}.
+
+(* ends.sort_by(|x,y| x.partial_cmp(y).unwrap()): insertion sort; None = the unwrap panics *)
+Fixpoint insert_f (x : F) (l : list F) : option (list F) :=
+  match l with
+  | [] => Some [x]
+  | y :: r => match fcmp x y with
+              | None => None
+              | Some Gt => option_map (cons y) (insert_f x r)
+              | Some _ => Some (x :: y :: r)
+              end
+  end.
+Fixpoint isort_f (l : list F) : option (list F) :=
+  match l with
+  | [] => Some []
+  | x :: r => match isort_f r with None => None | Some s => insert_f x s end
+  end.
+Fixpoint draw_pieces (n : nat) (ends : list F) (bs : list Z) : list (F * list Z) :=
+  match ends with
+  | [] => []
+  | e :: r => let '(p, bs') := get_n_f64 n bs in (e, p) :: draw_pieces n r bs'
+  end.
+Definition arb_piecewise (npiece : nat) (bs : list Z) : arb_result (list (F * list Z)) :=
+  let '(ends, rest) := get_vec_f64 bs in
+  let fe := map of_bits ends in
+  if (match fe with [] => true | _ => false end) || negb (forallb is_normalb fe) then ArbErr
+  else match isort_f fe with
+       | None => ArbPanic
+       | Some s => ArbOk (draw_pieces npiece s rest)
+       end.
+
+Definition run_arbitrary (npiece : nat) (bs : list Z) : list Z :=
+  match arb_piecewise npiece bs with
+  | ArbErr => [0]
+  | ArbPanic => [-1]
+  | ArbOk segs => 1 :: Z.of_nat (length segs) :: flat_map (fun s => to_bits (fst s) :: snd s) segs
+  end.
+Definition run_arb_vec (bs : list Z) : list Z :=
+  let '(v, rest) := get_vec_f64 bs in 1 :: Z.of_nat (length v) :: (map (fun z => to_bits (of_bits z)) v ++ [Z.of_nat (length rest)]).
